@@ -151,5 +151,36 @@ def structParse (env : CEnv P O T V E) (se : StructErr E) (c : CCfg P O T V) (x 
 def structStrict (env : CEnv P O T V E) (c : CCfg P O T V) (v : V) : Cpx.Res V E :=
   Cpx.strictParse env c (structIn v)
 
+/-! ## The (`Parse`, `StrictParse`) pair of every schema type on the complex path, by mechanism
+
+  What `Gozod.Drv.C09` runs on the `c09 cpx` lines: the family is the row of the regenerated entry-point table
+  (`EntryPoints.classify`), everything else comes from the real schema and the real validator. -/
+
+/-- How a complex-path type builds its pair. -/
+inductive Fam where
+  | slice      -- ZodSlice: `toSliceConstraint(ParseComplex …)` / the bare `ParseComplexStrict`
+  | viaParse   -- Array, Map, Object, Record, Set, Tuple, Union, Xor, Intersection: result switch to R / `return z.Parse(input, ctx...)`
+  | file | function | struct
+  deriving Repr, DecidableEq
+
+def famParse (se : StructErr E) : Fam → CEnv P O T V E → CCfg P O T V → CIn V → Cpx.Res V E
+  | .slice, env, c, x => typeParse sliceConv env c x
+  | .viaParse, env, c, x => typeParse adapt env c x
+  | .file, env, c, x => fileParse env c x
+  | .function, env, c, x => funcParse env c x
+  | .struct, env, c, x => structParse env se c x
+
+/-- `StrictParse`; for ZodStruct the input is `structIn v` (the parameter is a `T`): `structStrict env c v`. -/
+def famStrict (se : StructErr E) : Fam → CEnv P O T V E → CCfg P O T V → CIn V → Cpx.Res V E
+  | .slice, env, c, x => Cpx.strictParse env c x
+  | .viaParse, env, c, x => famParse se .viaParse env c x
+  | .file, env, c, x => fileStrict env c x
+  | .function, env, c, x => funcStrict env c x
+  | .struct, env, c, x => Cpx.strictParse env c x
+
+/-- All six entry points of a complex-path schema on one input. -/
+def famSix (se : StructErr E) (f : Fam) (env : CEnv P O T V E) (c : CCfg P O T V) (x : CIn V) : Six (Cpx.Res V E) E :=
+  six (fun y => (famParse se f env c y).toExcept) (fun y => (famStrict se f env c y).toExcept) x
+
 end Complex
 end Gozod.TypeLocal
